@@ -210,8 +210,8 @@ impl Database {
         for conflict in pendding_conflict {
             // (another session may remove a resolved record between the listing and this read)
             let conflict_command = match self.get_value(conflict.clone()) {
-                Some(value) => value.value,
-                None => continue,
+                Some(value) if value.state != ValueStatus::Deleted => value.value,
+                _ => continue,
             };
             if conflict_command.starts_with(RESOLVED_KEY_PREFIX) {
                 log::debug!("Conflict {} already resolved, remove the key", conflict);
@@ -227,7 +227,9 @@ impl Database {
         let pendding_conflict = self.list_conflicts_keys(key);
         let values = pendding_conflict
             .iter()
-            .filter_map(|key| self.get_value(key.clone()).map(|value| value.value))
+            .filter_map(|key| self.get_value(key.clone()))
+            .filter(|value| value.state != ValueStatus::Deleted)
+            .map(|value| value.value)
             .collect::<Vec<_>>();
         values
             .iter()
@@ -253,7 +255,9 @@ impl Database {
             let pendding_conflict = self.list_conflicts_keys(&change.key);
             let values = pendding_conflict
                 .iter()
-                .filter_map(|key| self.get_value(key.clone()).map(|value| value.value))
+                .filter_map(|key| self.get_value(key.clone()))
+            .filter(|value| value.state != ValueStatus::Deleted)
+            .map(|value| value.value)
                 .collect::<Vec<_>>();
             log::debug!(
                 "has_pendding_conflict conflict change key: {} version : {}, list: {}",
